@@ -2,6 +2,8 @@
 
 package protocol
 
+import "github.com/enfein/mieru/v3/pkg/appctl/appctlpb"
+
 // VerifSessionMeta marshals session metadata with the current (virtual) minute stamp.
 func VerifSessionMeta(proto uint8, sessionID, seq uint32, status uint8, payloadLen uint16, suffixLen uint8) []byte {
 	ss := &sessionStruct{baseStruct: baseStruct{protocol: proto}, sessionID: sessionID, seq: seq, statusCode: status, payloadLen: payloadLen, suffixLen: suffixLen}
@@ -20,4 +22,16 @@ func VerifUnmarshalMeta(b []byte) error {
 		return (&sessionStruct{}).Unmarshal(b)
 	}
 	return (&dataAckStruct{}).Unmarshal(b)
+}
+
+// VerifLEDataMeta marshals valid low-entropy data metadata (no payload) for every mode,
+// with the current (virtual) minute stamp.
+func VerifLEDataMeta(proto uint8, mode uint8) ([]byte, error) {
+	params, err := buildLowEntropyParams(appctlpb.LowEntropyMode(mode))
+	if err != nil {
+		return nil, err
+	}
+	das := &dataAckStruct{baseStruct: baseStruct{protocol: proto}, sessionID: 77, seq: 1, windowSize: 16,
+		lowEntropyMode: mode, lowEntropyMask: uint32(lowBits(params.halfMaskOnes)), lowEntropyMaskRotation: 0}
+	return das.Marshal(), nil
 }
